@@ -1516,6 +1516,8 @@ def _compute_permutation_c(
 
     """
     permutation = np.zeros(shape=(len(positions_a),), dtype="intc")
+    # The C routine reads the raw buffer: a transposed view must be copied.
+    lattice = np.array(lattice, dtype="double", order="C")
 
     def permutation_error():
         raise ValueError(
